@@ -25,21 +25,12 @@ def nrOf (j : Json) : NRange × Bool := match j with
 
 def txtBytes (t : Txt) : Bytes := (String.ofList t).toUTF8.toList
 
-def nonBmp (c : Char) : Bool := c.val.toNat ≥ 0x10000
-def nonAscii (c : Char) : Bool := c.val.toNat ≥ 0x80
-
-/-- Some rune before rune-column `p.col` on `p`'s line satisfies `f`. -/
-def runeBefore (lns : List Txt) (f : Char → Bool) (p : Pos) : Bool :=
-  match lns[p.line - 1]? with
-  | some ln => p.line ≥ 1 && (ln.take (p.col - 1)).any f
-  | none => false
 
 def isDateChar (c : Char) : Bool := ('0' ≤ c && c ≤ '9') || c == '-' || c == '/' || c == '.'
 def isDateText (s : Txt) : Bool :=
   !s.isEmpty && s.all isDateChar && (s.head?.map isDigitC).getD false && (s.getLast?.map isDigitC).getD false
 
 def trimR (s : Txt) : Txt := (s.reverse.dropWhile (· == ' ')).reverse
-def trimL (s : Txt) : Txt := s.dropWhile (· == ' ')
 
 structure Acc where
   fails : Array (String × String) := #[]   -- (known finding id or "", description)
@@ -55,7 +46,6 @@ structure Env where
   jr : Journal
   crlf : Bool
   fx : Fixes
-  utf16 : Bool             -- the tree's columns count UTF-16 units (fix-utf16-columns.diff)
 
 /-- The end of a range is the position just after a line's CR (CRLF documents). -/
 def afterCR (e : Env) (l c : Nat) : Bool :=
@@ -88,11 +78,6 @@ def quotedDirective (e : Env) (h : Option Hit) : Bool :=
      | none => false)
   | none => false
 
-def isTagRange (e : Env) (r : Rng) : Bool :=
-  let all := e.jr.transactions.flatMap fun tx =>
-    tx.comments.flatMap (·.tags) ++ tx.postings.flatMap (·.tags)
-  all.any (fun t => t.range == r)
-
 /-- Judge one range against the spec.  `h` says what the range is a range of (kind, the lexeme
     named by the tree, the position range the code started from).  `none` = passes;
     `some (id, why)` = fails, `id` the known finding whose guard names this shape ("" if none). -/
@@ -100,12 +85,9 @@ def judgeCore (e : Env) (feature : String) (r : NRange) (h : Option Hit) : Optio
   let rng := (h.map (·.rng)).getD Rng.zero
   let kind := (h.map (·.kind)).getD Kind.other
   let name := (h.map (·.name)).getD []
-  let tagLike := kind == .tag || kind == .tagValue || isTagRange e rng
   if !rangeOK e.doc r then
     let known :=
-      if h.isSome && rng.stop == Pos.zero && (kind == .account || kind == .commodity) then "directive-name-no-end"
-      else if tagLike && runeBefore e.raw nonAscii rng.stop then "tag-byte-offsets"
-      else if kind == .payee && !payeeCanonical e h.get! then "payee-estimate"
+      if kind == .payee && !payeeCanonical e h.get! then "payee-estimate"
       else if quotedDirective e h then "quoted-commodity-directive"
       else if e.crlf && (afterCR e r.sl r.sc || afterCR e r.el r.ec) then "crlf-line-end"
       else ""
@@ -135,11 +117,10 @@ def judgeCore (e : Env) (feature : String) (r : NRange) (h : Option Hit) : Optio
     return bad (if !payeeCanonical e h.get! then "payee-estimate" else "") "a payee"
   | .tag =>
     if sb == name then return none
-    return bad (if runeBefore e.raw nonAscii rng.stop then "tag-byte-offsets" else "") "a tag name"
+    return bad "" "a tag name"
   | .tagValue =>
     if sb == name then return none
-    return bad (if runeBefore e.raw nonAscii rng.stop then "tag-byte-offsets"
-                else if txtBytes (trimL s) == name then "tag-value-leading-blank" else "") "a tag value"
+    return bad "" "a tag value"
   | .date =>
     if isDateText s then return none
     return bad "" "a date"
@@ -153,46 +134,16 @@ def judgeCore (e : Env) (feature : String) (r : NRange) (h : Option Hit) : Optio
     return none
   | _ => return none
 
-/-- The range the code would have sent had it converted the rune columns of `h.rng` to UTF-16
-    units with the line text (for payee estimates and `nameRange`s only the start is a rune column: the length
-    is `UTF16Len(name)` already). -/
-def corrected (e : Env) (h : Hit) : Option NRange :=
-  let conv (p : Pos) : Option (Nat × Nat) :=
-    if p.line = 0 || p.col = 0 then none else
-    match e.raw[p.line - 1]? with
-    | some ln => if p.col - 1 ≤ ln.length then some (p.line - 1, u16len (ln.take (p.col - 1))) else none
-    | none => none
-  match conv h.rng.start with
-  | none => none
-  | some (sl, sc) =>
-    if h.derived && (h.kind == .payee || h.kind == .account || h.kind == .commodity) then
-      some ⟨sl, sc, sl, sc + u16lenB h.name⟩
-    else match conv h.rng.stop with
-      | some (el, ec) => some ⟨sl, sc, el, ec⟩
-      | none => none
-
-/-- Judge one implementation range.  A failure no specific guard explains is attributed to
-    `utf16-columns` only if a non-BMP rune precedes the range on its line AND the range is
-    right once its rune columns are converted to UTF-16 units (or what is then left is
-    explained by another guard). -/
+/-- Judge one implementation range.  A failure is attributed to a known finding only by the
+    specific guard of `judgeCore`; in particular nothing is excused because a rune outside the
+    BMP precedes the range (the conversion to UTF-16 units is the code's job since
+    fix-utf16-positions.diff). -/
 def judge (e : Env) (feature : String) (a : Acc) (r : NRange) (foreign : Bool) (h : Option Hit) : Acc := Id.run do
   let a := { a with checked := a.checked + 1 }
   if foreign then return a.fail "" s!"{feature}: location in another document"
   match judgeCore e feature r h with
   | none => return a
-  | some (k, why) =>
-    if k != "" then return a.fail k why
-    match h with
-    | none => return a.fail "" why
-    | some hit =>
-      let nonBmpB := runeBefore e.raw nonBmp hit.rng.start || runeBefore e.raw nonBmp hit.rng.stop
-      if e.utf16 || !nonBmpB then return a.fail "" why
-      match corrected e hit with
-      | none => return a.fail "" why
-      | some r' =>
-        match judgeCore e feature r' h with
-        | none => return a.fail "utf16-columns" why
-        | some (k', _) => if k' == "" then return a.fail "" why else return (a.fail "utf16-columns" why).fail k' why
+  | some (k, why) => return a.fail k why
 
 def judgeList (e : Env) (feature : String) (a : Acc) (impl : Array Json) (hits : List Hit) : Acc := Id.run do
   let mut a := a
@@ -221,11 +172,12 @@ def doc (j : Json) : Json := Id.run do
   let impl := jget j "impl"
   let fxj := jget j "fx"
   let fx : Fixes := ⟨jbool fxj "link", jbool fxj "fold"⟩
-  let e : Env := { doc := text, raw := lines text, jr := jr, crlf := text.contains '\r', fx := fx, utf16 := jbool fxj "utf16" }
+  let lns := lines text
+  let e : Env := { doc := text, raw := lns, jr := jr, crlf := text.contains '\r', fx := fx }
   -- model
-  let mDiag := diagnostics perrs diagIn loadIn
-  let mSym := documentSymbols jr
-  let mWs := workspaceSymbols jr
+  let mDiag := diagnostics lns perrs diagIn loadIn
+  let mSym := documentSymbols lns jr
+  let mWs := workspaceSymbols lns jr
   let mLink := documentLinks fx text jr
   let mFold := foldingRanges fx text jr
   let cursors := jarr j "cursors"
@@ -293,10 +245,10 @@ def doc (j : Json) : Json := Id.run do
   for cj in cursors do
     let c := curOf cj
     let ic := implCur[i]?.getD .null
-    let mh := hover jr c
-    let md := definition jr c
-    let mrf := references jr c (jbool cj "decl")
-    let mp := prepareRename jr c
+    let mh := hover lns jr c
+    let md := definition lns jr c
+    let mrf := references lns jr c (jbool cj "decl")
+    let mp := prepareRename lns jr c
     let ctx := jnat cj "ctx"
     let mter := textEditRange text c ctx
     let mce := completionEdits text c ctx (jnat cj "nitems")
@@ -310,7 +262,7 @@ def doc (j : Json) : Json := Id.run do
       ("ter", match mter with | some r => lr r | none => .null),
       ("ce", lrs mce), ("ic", lrs mic)]
     if jbool cj "ren" then
-      let mrn := rename jr c
+      let mrn := rename lns jr c
       o := o ++ [("rn", hks mrn)]
       a := judgeList e "rename" a (jarr ic "rn") (mrn.map (·.1))
     curOut := curOut.push (Json.mkObj o)
@@ -353,7 +305,7 @@ def doc (j : Json) : Json := Id.run do
     ("known", Json.arr (if unexplained.isEmpty && g then (knownIds.map Json.str).toArray else #[])),
     ("why", why), ("nontrivial", g && a.checked > 0),
     -- hypothesis of the theorems, evaluated on the real parser's tree (evidence of non-vacuity)
-    ("tree_sound", TreePositionsSound (unitOf e.utf16) text jr)]
+    ("tree_sound", TreePositionsSound one text jr)]
 
 def handle (op : String) (j : Json) : Option Json :=
   match op with
